@@ -268,6 +268,64 @@ def pred(case, impl):
     return 'chk_reports %s %s %s' % (t[3], t[4], impl)
 
 
+# ---- the letters clause read off script and reports (no model): search support for a concrete witness ----
+def _groups(items):
+    """well-formed reply groups of a script made of plain lines only, else None"""
+    out, cur = [], None
+    for it in items:
+        if not it.startswith('L'):
+            return None
+        ln = bytes.fromhex(it[1:])
+        if len(ln) < 4 or not ln[:3].isdigit() or ln[3:4] not in (b' ', b'-') or b'\0' in ln or len(ln) > 900:
+            return None
+        code = int(ln[:3])
+        if not 200 <= code <= 599:
+            return None
+        if cur is not None and cur != code:
+            return None
+        if ln[3:4] == b'-':
+            cur = code
+        else:
+            out.append(code); cur = None
+    return out if cur is None else None
+
+
+def script_oracle(case, impl):
+    """For a server that answers every command with one well-formed reply: recipient k is reported r/s/h
+    exactly when its RCPT TO was answered 2xx/4xx/5xx, and K only after 354 and a 2xx to the message."""
+    t = case.split()
+    if len(t) < 11 or t[6] != '1' or t[7] != '-' or not impl.startswith('exit=0') or t[8] == '-':
+        return None
+    items = t[8].split(',')
+    if any(b'SIZE ' in bytes.fromhex(i[1:]).upper() for i in items if i.startswith('L')):
+        return None
+    g = _groups(items)
+    n = len(t[4].split(',')) if t[4] != '-' else 0
+    if g is None or n == 0 or len(g) < 3 + n or not (g[0] == 220 and g[1] == 250 and 200 <= g[2] < 300):
+        return None
+    m = re.search(r'status=(\S+)', impl)
+    if not m or m.group(1) == '-':
+        return None
+    reports = bytes.fromhex(m.group(1)).split(b'\0')
+    if reports and reports[-1] == b'':
+        reports.pop()
+    want = ''.join('r' if c < 300 else ('s' if c < 500 else 'h') if c >= 400 else '?' for c in g[3:3 + n])
+    if '?' in want:
+        return None
+    got = ''.join(chr(r[0]) if r else '?' for r in reports[:n])
+    if got != want:
+        return 'fails recipient-letters: server answered %s, reports say %s' % (want, got)
+    msg = [r for r in reports[n:]]
+    anyok = 'r' in want
+    k_ok = anyok and len(g) >= 5 + n and g[3 + n] == 354 and 200 <= g[4 + n] < 300
+    has_k = any(r[:1] == b'K' for r in msg)
+    if has_k and not k_ok:
+        return 'fails K-without-2xx-to-the-message'
+    # (the converse - a message the server took is reported K - is not part of the property: a multi-line
+    #  354 answer to DATA is reported D although the message is then sent and accepted; observed, see DESIGN.md)
+    return None
+
+
 # ---- known-finding classes --------------------------------------------------------------------
 ABORT_TEXTS = [b'Z5.5.2 syntax error in server reply', b'Z4.4.1 connection to remote server died',
                b'Z4.4.1 connection to remote server timed out', b'Z4.3.0 ']
@@ -312,8 +370,15 @@ def run(ctx):
     h = setup_harness(ctx)
     if h:
         cases = gen_cases(ctx)
-        vlib.differential(ctx, 'qremote', h, cases, hline=hline, pred=pred, corr_name=CORR, known_class=known_class,
-                          nontrivial=lambda c, o: 'status=-' not in o and o.startswith('exit='))
+        res = vlib.differential(ctx, 'qremote', h, cases, hline=hline, pred=pred, corr_name=CORR, known_class=known_class,
+                                nontrivial=lambda c, o: 'status=-' not in o and o.startswith('exit='))
+        fails = []
+        for c, ho, mo in res:
+            v = script_oracle(c, ho)
+            if v:
+                fails.append((c, ho, v))
+            ctx.count('script-oracle:' + ('no-opinion' if v is None and script_oracle(c, 'exit=0 status=00') is None else 'applied'))
+        vlib.handle_results(ctx, 'qremote:script-oracle', 'recipient letters and K against the server script', [], fails, known_class)
         vlib.differential(ctx, 'qremote-long-addresses', h, gen_long_addresses(ctx), hline=hline, corr_name=CORR)
         vlib.differential(ctx, 'qremote-enomem-in-drain', h, gen_enomem_drain(ctx), hline=hline, corr_name=CORR)
     if not ctx.quick():
